@@ -250,7 +250,11 @@ pub fn run(ctx: &Ctx) -> i32 {
     std::fs::write(format!("{}/afile", base), "x").unwrap();
     std::fs::create_dir_all(format!("{}/broken", base)).unwrap();
     std::fs::write(format!("{}/broken/p.ctehexml", base), "<CTE-HE-XML><DatosGenerales>").unwrap();
-    for d in ["empty", "onlytxt", "afile", "missing", "broken"] {
+    // a project file that is not valid UTF-8 (saved as ISO-8859-1), and one that is a directory
+    std::fs::create_dir_all(format!("{}/latin1", base)).unwrap();
+    std::fs::write(format!("{}/latin1/p.ctehexml", base), b"<CTE-HE-XML><DatosGenerales><nomPro>Edificaci\xf3n</nomPro></DatosGenerales></CTE-HE-XML>".to_vec()).unwrap();
+    std::fs::create_dir_all(format!("{}/dirfile/p.ctehexml", base)).unwrap();
+    for d in ["empty", "onlytxt", "afile", "missing", "broken", "latin1", "dirfile"] {
         for extra in [false, true] {
             let dir = format!("{}/{}", base, d);
             let args: Vec<&str> = if extra { vec!["--use-extra", dir.as_str()] } else { vec![dir.as_str()] };
@@ -282,7 +286,7 @@ pub fn run(ctx: &Ctx) -> i32 {
     }
     ctx.finish(
         "exploration",
-        "every project directory (12 shipped incl. VyP and GT system sections + synthetic directories written by the generator, with and without KyG/tbl files) x {default, --use-extra}: hulc2model is run as a process (stdout captured, exit status) and compared with hulc2model::collect_hulc_data computed in a monitored worker process (any byte on fd 1 during the library call is a violation); stdout must parse as a whole as one JSON document and load as a model whose re-serialisation is byte-identical to the library's, also when the directory is named with a trailing slash or relative to the working directory, when RUST_LOG=trace is set, when the directory name holds blanks and non-ASCII letters, and when only one of the two result files exists; thor FILE -o OUT (OUT pre-existing and longer than any model) must leave exactly the library model JSON in the file and nothing on stdout; 5 kinds of non-project directory x 2 flag sets must give a non-zero exit status and no JSON; the stdout monitor also runs over grey-box value substitutions (XML values replaced by the string literals the parser source branches on; 2 projects quick / all thorough) and, in thorough, over every 'remove one block' mutant of every shipped .ctehexml; non-trivial = convertible project run or non-project run",
+        "every project directory (12 shipped incl. VyP and GT system sections + synthetic directories written by the generator, with and without KyG/tbl files) x {default, --use-extra}: hulc2model is run as a process (stdout captured, exit status) and compared with hulc2model::collect_hulc_data computed in a monitored worker process (any byte on fd 1 during the library call is a violation); stdout must parse as a whole as one JSON document and load as a model whose re-serialisation is byte-identical to the library's, also when the directory is named with a trailing slash or relative to the working directory, when RUST_LOG=trace is set, when the directory name holds blanks and non-ASCII letters, and when only one of the two result files exists; thor FILE -o OUT (OUT pre-existing and longer than any model) must leave exactly the library model JSON in the file and nothing on stdout; 7 kinds of non-project directory (empty, only a text file, a plain file, missing, truncated XML, project file in ISO-8859-1, project file that is a directory) x 2 flag sets must give a non-zero exit status and no JSON; the stdout monitor also runs over grey-box value substitutions (XML values replaced by the string literals the parser source branches on; 2 projects quick / all thorough) and, in thorough, over every 'remove one block' mutant of every shipped .ctehexml; non-trivial = convertible project run or non-project run",
         true,
         json!({}),
     )
